@@ -43,6 +43,8 @@ def main():
             n = str(int(n) + 2)  # second seeding round
         if "/seed3/" in d:
             n = str(int(n) + 4)  # third seeding round
+        if "/seed8/" in d:
+            n = str(int(n) + 14)  # eighth seeding round
         if "/seed7/" in d:
             n = str(int(n) + 12)  # seventh seeding round
         if "/seed6/" in d:
